@@ -13,7 +13,7 @@ def write_cfg(path, maxsteps=20000, gc=False):
 
 
 def validate_programs(ctx, programs, tag, use_sugar=None, shards=None, maxsteps=20000, timeout=3000, texts=None,
-                      stack_mb=64):
+                      stack_mb=64, anykind=False):
     """programs: list of lists of forms (JSON ASTs). Returns list of mismatch dicts
     {program, form, why, expected, observed, ...}; raises ToolError if TLC did not consume everything."""
     n = len(programs)
@@ -32,7 +32,7 @@ def validate_programs(ctx, programs, tag, use_sugar=None, shards=None, maxsteps=
             for i in range(s, n, shards):
                 if results[i].get("skipped"):
                     continue
-                evs = S.form_events(programs[i], results[i])
+                evs = S.form_events(programs[i], results[i], anykind=anykind)
                 for k, e in enumerate(evs):
                     f.write(json.dumps(e, separators=(",", ":")) + "\n")
                     idx.append((i, k - 1))
